@@ -43,7 +43,9 @@ LEVEL = {'text': 'Machine-checked refinement of a state machine (caches, object 
                  'repositioning of every stream.',
          'design_ref': '4.10', 'technique': 'Coq proof (invariant + refinement, lifted over fold_left) + '
                                             'extracted-model correspondence on call histories',
-         'note': 'No theorem is partial. C10_lineprog_file_entry_refuted witnesses the known finding (LineProg after '
+         'note': 'No theorem is partial. Two opened files are two independent machines (C10_two_objects_independent); that the '
+                 'library keeps no module- or class-level state between file objects is pinned by the pair histories, and '
+                 'every file description is tabulated in a fresh child process. C10_lineprog_file_entry_refuted witnesses the known finding (LineProg after '
                  'LineEntries on a program with DW_LNE_define_file); op_ok excludes exactly LineProg on such files. '
                  'Hypotheses: wf_file (units tile .debug_info, entry trees tile their units, DW_AT_sibling truthful, '
                  'distinct line-program starts), fuel_ok (model loop fuel above the size bound of the file), valid_op '
@@ -52,7 +54,9 @@ LEVEL = {'text': 'Machine-checked refinement of a state machine (caches, object 
 RULE = ('cases: (file, history, last operation); bfs = every abstract state reachable within the depth bound x every '
         'operation of the alphabet on 3 synthesized files (five alphabets: DWARF, ELF, call-frame decoding in every order '
         '(two levels deeper), interleaved iterators over the children of one entry (five levels deeper), and a type-unit generator '
-        'interleaved with lookups by signature (two levels deeper)), rnd = random histories on seed binaries with a Disturb '
+        'interleaved with lookups by signature (two levels deeper)); pair = every interleaving up to depth 3 of '
+        'queries on TWO files opened in one process (file A and its big-endian twin), each history in a process of '
+        'its own, each answer compared with the stateless answer for its file, rnd = random histories on seed binaries with a Disturb '
         'after every call (minimised when failing). distinct = hash(kind, file, history); non-trivial = history '
         'of length >= 2 or an operation that fills a cache')
 
